@@ -18,8 +18,8 @@ PROPS["C01"] = {
     "layers": ["mux"],
     "oracles": {"exclusion", "exclusion-ann", "panic"},
     "plan": {
-        "quick": [("core", 60, 6), ("cv", 50, 6), ("cv_raw", 30, 6), ("muwait", 50, 6), ("waitn_cv", 30, 6), ("debug", 40, 6)],
-        "thorough": [("core", 600, 12), ("cv", 500, 12), ("cv_raw", 300, 12), ("muwait", 500, 12), ("waitn_cv", 300, 12), ("debug", 400, 12), ("mixed", 500, 12)],
+        "quick": [("core", 60, 6), ("cv", 50, 6), ("cv_raw", 30, 6), ("muwait", 50, 6), ("waitn_cv", 30, 6), ("debug", 40, 6), ("cv_rsignal", 60, 8)],
+        "thorough": [("cv_rsignal", 600, 16), ("core", 600, 12), ("cv", 500, 12), ("cv_raw", 300, 12), ("muwait", 500, 12), ("waitn_cv", 300, 12), ("debug", 400, 12), ("mixed", 500, 12)],
     },
     "level_text": "Kernel-checked theorems C01_exclusion / C01_reader_excludes_writer / C01_exclusion_ann / C01_word_agrees / C01_store_sound over the MuX model (one step per atomic operation on the mutex word, any number of threads, all interleavings, all acquisition paths incl. timeout/cancel re-acquisition and the plain release-stores); tied to the code by lockstep replay of harness executions of the real sources through the MuX acceptor, with exclusion oracles on the implementation side",
     "level_note": "Proved for the model; model=code is established on the executions replayed (sampled, coverage in evidence). Hint bits are uninterpreted in this layer. SC interleavings at atomic-operation granularity. Client contract assumed (acceptor rejects violations).",
@@ -93,14 +93,6 @@ PROPS["C17"] = {
     "level_note": "Contract hypotheses: inserted element is a ring disjoint from the list; removed element is in the list; splice arguments in different rings (what nsync's callers guarantee). Tie is the differential run (exhaustive to the stated bound + random), not a translation.",
 }
 
-PROPS["C02"] = {
-    "claim": False,
-    "imports": ["NsyncVerif.Props.C01"], "theorems": [],
-    "layers": ["mux"],
-    "oracles": {"stuck", "steplimit", "try-blocked", "panic", "crash"},
-    "plan": {"quick": [("core", 150, 8), ("muwait", 60, 6), ("cv", 60, 6)], "thorough": [("core", 1500, 16), ("muwait", 600, 12), ("cv", 600, 12), ("mixed", 600, 12)]},
-    "level_text": "", "level_note": "",
-}
 
 PROPS["C15"] = {
     "imports": ["NsyncVerif.Props.C15", "NsyncVerif.Props.C12"],
@@ -128,3 +120,46 @@ PROPS["C03"] = {
     "level_text": "Kernel-checked theorems: (1) over the MuX protocol with declared orders and ghost vector clocks — the release clock of the mutex word always covers every past release point (C03_release_chain), so whatever a thread did before giving up its share happens before the continuation of every thread that later comes to own a share, for all interleavings and any number of threads, using only acquire/release strength and the C++20 release-sequence rule (C03_unlock_happens_before_lock); the acceptor requires acquire on every share/spinlock-taking write, release on every share/spinlock-releasing write and release on the plain stores (C03_orders_required); (2) over the generic vector-clock machine — the message-passing theorem (release write, then only RMWs / dominated release stores, then acquire read ⇒ happens-before) that the once / note / counter / signal hand-offs instantiate. Tied to the code by lockstep: every atomic operation of every explored execution goes through the vc layer (which also checks the five hand-offs of the statement on the real executions: data-race detector for mutex-protected data, once end→return, note set→observation, counter zero→wait return, signal→woken return) and the mutex word's operations through MuX's order checks.",
     "level_note": "The once / note / counter / signal edges are proved as instances of the generic message-passing theorem only informally: that each layer's return path reads, with acquire, a value written with release is enforced by the layer acceptors' order checks and verified on every explored execution by the vc layer, but the product of each layer model with the clock machine is not yet a theorem (partial). Orders of sites no explored schedule reaches are not covered by lockstep. SC interleavings only, as the property specifies.",
 }
+
+MUQ = "NsyncVerif.MuQ."
+PROPS["C02"] = {
+    "imports": ["NsyncVerif.Props.C02"],
+    "theorems": [MUQ + t for t in ["C02_try_wait_free", "C02_inv_spin", "C02_inv_spin_queue", "C02_inv_lock", "C02_inv_queue", "C02_inv_hint",
+                 "C02_responsible", "C02_woken_not_lost", "C02_no_stuck_state", "C02_solo_progress_partial"]],
+    "layers": ["muq", "mux"],
+    "oracles": {"stuck", "steplimit", "try-blocked", "panic", "crash"},
+    "plan": {"quick": [("core", 200, 8), ("muwait", 60, 6), ("cv", 60, 6), ("cv_rsignal", 40, 6)],
+             "thorough": [("core", 2000, 16), ("muwait", 600, 12), ("cv", 600, 12), ("cv_rsignal", 400, 12), ("mixed", 600, 12)]},
+    "level_text": "Kernel-checked theorems over the MuQ model (mu.c lock/rlock/trylock/rtrylock/unlock/runlock/lock_slow/unlock_slow statement by statement: word with interpreted hint bits, waiter queue, per-waiter waiting flag and semaphore, 31 program points, one step per atomic operation; any number of threads; counting and binary semaphores): try-locks are wait-free (at most 3 atomic operations, never a semaphore wait); inductive invariants for spinlock, lock bits, queue and hint bits; every queued sleeper has somebody responsible for waking it (a share holder, a woken thread in flight, or an unlocker mid-scan: C02_responsible); a woken thread's post is never lost (C02_woken_not_lost); and there is NO reachable state in which every thread is idle-holding-nothing or asleep unless nobody is asleep (C02_no_stuck_state). Tied to the code by lockstep replay of harness executions of the real mu.c through the MuQ acceptor (every event: op kind, order, location, expected/new/observed values) plus the global-progress oracle on the real executions, which also runs the full alphabet (mu_wait, cv, wait_n).",
+    "level_note": "Scope of the theorems is the property's own quantifier (core operations on one mutex; a mutex used with mu_wait/cv/wait_n/debug is out of MuQ's scope and covered by lockstep through MuX plus the progress oracle only). 'Eventually returns' = unreachability of stuck states; the fair-termination step (weak fairness, finite interference on CAS loops) is a paper argument. C02_solo_progress is proved for try-locks only (partial). Waiter-pool allocation is an allocator contract.",
+}
+PROPS["C14"] = {
+    "imports": ["NsyncVerif.Props.C14"],
+    "theorems": [MUQ + t for t in ["C14_escalates", "C14_sets_bit", "C14_requeue_front", "C14_blocks_fresh", "C14_cleared_only_by_long_waiter", "C14_woken_ignores_hints"]],
+    "layers": ["muq", "mux"],
+    "oracles": {"stuck", "steplimit", "panic", "starved"},
+    "plan": {"quick": [("core", 150, 8), ("starve", 40, 10)], "thorough": [("core", 1500, 16), ("starve", 400, 20)]},
+    "level_text": "Kernel-checked theorems over the MuQ model: a thread inside lock_slow has its long-wait flag set exactly from its 30th wake-up on (C14_escalates); it then sets MU_LONG_WAIT in every enqueue and re-queues at the FRONT (C14_sets_bit, C14_requeue_front); while the bit (or, for fresh readers, MU_WRITER_WAITING) is set no step of a thread that has not itself waited acquires — fast paths, try-locks and lock_slow with clear = 0 (C14_blocks_fresh); the bit is cleared only by the acquiring CAS of a thread that itself escalated (C14_cleared_only_by_long_waiter); a woken thread is stopped only by real lock conflicts (C14_woken_ignores_hints). A directed corpus schedule drives the real library through 30 wake-ups of a victim and checks the same steps in lockstep; the harness measures the number of sleeps of a victim inside one lock call under adversarial barging.",
+    "level_note": "The prose bound ('sent back to sleep only a bounded number of times') is proved as the mechanism above; with several escalated waiters one of them may clear the bit while another still sleeps (it re-raises it at its next enqueue), so the numeric bound is measured by the harness oracle (sleeps in one call <= 30 + number of fibers + margin), not proved in general.",
+}
+PROPS["C10"] = {
+    "imports": ["NsyncVerif.Props.C10"],
+    "theorems": ["Counter." + t for t in ["C10_linearizable", "C10_cas_atomic", "C10_add_returns", "C10_value_held", "C10_value_held_add", "C10_value_held_wait",
+                 "C10_wait_zero", "C10_wait_nonzero", "C10_release_all", "C10_release_all_unlock", "C10_released_posted", "C10_no_lost_wakeup",
+                 "C10_no_block_after_zero", "C10_wait_at_zero", "C10_record_lifetime", "C10_record_lifetime_ret"]],
+    "layers": ["counter", "mux", "vc"],
+    "oracles": {"early-timeout", "stuck", "panic", "crash", "counter-value", "vc"},
+    "plan": {"quick": [("ctr", 200, 8)], "thorough": [("ctr", 2000, 16)]},
+    "level_text": "Kernel-checked theorems over the Counter model (counter.c and the nsync_wait_n path of nsync_counter_wait statement by statement, counter mutex abstract, any number of threads and deltas): the value history is exactly the prefix sums of the deltas whose CAS succeeded and every add returns the value its own CAS produced (linearizable); value/add(0)/wait only report values the counter held; wait returns 0 only if 0 was held and non-zero only with the deadline expired; when the value is 0 and the lock is free the waiter queue is empty and every record that was queued has waiting cleared and its semaphore posted; a sleeper is never lost; after zero (with a wait registered) no wait reaches the semaphore. Tied to the code by lockstep replay of harness executions of the real counter.c/wait.c through the Counter acceptor.",
+    "level_note": "counter_mu is an abstract lock in this layer (justified by C01, whose acceptor replays the same logs). uint32 wrap-around modelled; the library's ASSERTs (no decrement below zero, no increment from zero after a wait) are the API contract. Waits through nsync_wait_n with several objects are C11's subject.",
+}
+NOT_YET.update({
+    "C04": "Cv layer (cv.c model, theorems, acceptor) under construction",
+    "C05": "depends on the Cv layer and a mu_wait model; under construction",
+    "C06": "needs a model of conditional critical sections (mu_wait.c, same_condition rings) on top of MuQ; not built yet",
+    "C08": "Note layer under construction",
+    "C09": "Note layer under construction",
+    "C11": "WaitN layer not built yet",
+    "C13": "mutex half proved (Props/C13Mu.lean, checked inside C02's lockstep); cv / wait_n half depends on the Cv and WaitN layers; not claimed until both halves have a check",
+    "C19": "counter half proved (Props/C19Counter.lean); note half depends on the Note layer",
+})
